@@ -196,8 +196,8 @@ PROPS["C11"] = {
     "parts": [{"name": "schedules", "pkg": "c11", "chk": "chk_c11", "args": ["wmutex"]},
               {"name": "stress_pattern", "pkg": "c11", "chk": "chk_c11_stress", "args": ["stress_pattern"]},
               {"name": "stress_service", "pkg": "c11", "chk": "chk_c11_stress", "args": ["stress_service"]}],
-    "reasons": {"stress_pattern": {"1": "free-running stress: a lookup was routed to a target after its watcher's Close had returned, or the name could not be watched again"},
-                "stress_service": {"1": "free-running stress: a lookup was routed to a target after its watcher's Close had returned, or the name could not be watched again"},
+    "reasons": {"stress_pattern": {"1": "free-running stress: a lookup was routed to a target after its watcher's Close had returned, or the name could not be watched again", "2": "free-running stress: a route present in every description of a target that is being re-described was momentarily unroutable (flicker)", "3": "free-running stress: a lookup returned target / service / method / binding that are not parts of one description (mixture)"},
+                "stress_service": {"1": "free-running stress: a lookup was routed to a target after its watcher's Close had returned, or the name could not be watched again", "2": "free-running stress: a route present in every description of a target that is being re-described was momentarily unroutable (flicker)", "3": "free-running stress: a lookup returned target / service / method / binding that are not parts of one description (mixture)"},
                 "schedules": {"1": "a lookup issued after Close had returned was routed to the removed target (its routes came back through an update that was in flight)",
                               "2": "re-Watch refused after Close returned, or accepted while still watched"}},
     "rule": "10 thread sets (pattern and service router): update-vs-close with lookups, two updates of one target with lookups, close + re-watch + update through the new watcher + stale update through the old one, two targets with overlapping services, double close; EVERY interleaving at the granularity of the verif yield points is enumerated by the extracted model and replayed on the real routers (goroutines parked at the yield points); quick tier samples evenly when a set has more than 70 schedules",
@@ -256,8 +256,9 @@ PROPS["C04"] = {
                 "bind": {"1": "the request message depends on which protobuf types are registered in the bridge process (clean vs poisoned global registry)",
                          "2": "a value that does not parse produced something other than InvalidArgument (or Internal for a body path that does not resolve)",
                          "3": "a query parameter addressing a field already bound by the body or a path variable changed the request message",
-                         "4": "the transcoder panicked"}},
-    "rule": "schemas built at run time (never registered globally; well-known types as COPIES with the same full names, as reflection delivers them): one rich schema (every scalar kind, enum, lists, maps with 4 key kinds, nested messages 3 deep, two oneofs incl. a message member, proto3 optional, 8 wrapper types, FieldMask, json_name variants) and random small schemas; per case a body binding ('', '*', a scalar / list / map / message / nested field, unresolvable paths), 0-4 path variables (nested, inside the body field, sharing names at different depths), 0-5 query keys (proto and JSON names, map brackets, keys under bound prefixes, unknown and malformed keys), valid and invalid text forms from per-kind boundary pools, 1-3 bodies as repeated Transcode calls or through the stream decoder; each request runs with a clean global registry, again after conflicting types with the same full names were registered, and once more without the query keys that address bound fields",
+                         "4": "the transcoder panicked",
+                         "5": "a query parameter addressing an unbound string field whose name merely starts with the name of a bound field did not arrive verbatim in the request message"}},
+    "rule": "schemas built at run time (never registered globally; well-known types as COPIES with the same full names, as reflection delivers them): one rich schema (every scalar kind, enum, lists, maps with 4 key kinds, nested messages 3 deep, two oneofs incl. a message member, proto3 optional, 8 wrapper types, FieldMask, json_name variants) and random small schemas; per case a body binding ('', '*', a scalar / list / map / message / nested field, unresolvable paths), 0-4 path variables (nested, inside the body field, sharing names at different depths), 0-5 query keys (proto and JSON names, map brackets, keys under bound prefixes, unbound siblings whose names start with a bound name, unknown and malformed keys), valid and invalid text forms from per-kind boundary pools, 1-3 bodies as repeated Transcode calls or through the stream decoder; each request runs with a clean global registry, again after conflicting types with the same full names were registered, and once more without the query keys that address bound fields",
     "level_text": "Coq theorems over ALL schemas, bindings and requests of the model: a path variable's parsed value is what ends up in the message whatever body and query say (precedence), the filter is exactly bound-prefix, bound query keys are ignored, populate/query frame lemmas (only the addressed field path changes), body '*' ignores the query, failures are InvalidArgument (Internal only for an unresolvable body path), integer and enum text forms are exact (no wrap-around; pre-repair enum parser refuted). Tied to the code by the differential harness (model = code on every case, in both registry states).",
     "level_note": "Trusted: Coq kernel, extraction, modelrun, Go harness; protojson for whole-message bodies (the model covers the canonical subset the harness generates), encoding/json, strconv, net/url query decoding, dynamicpb. Timestamp / Duration / Value / Struct text forms are not modelled (time.Parse, protojson).",
     "design_ref": "DESIGN.md §3 C04",
